@@ -1,6 +1,7 @@
 package main
 
 import (
+	"bytes"
 	"fmt"
 	"reflect"
 	"regexp"
@@ -311,6 +312,7 @@ func c16Spaces(c *fw.Ctx) {
 	}
 
 	c16NonCanonicalSpace(c)
+	c16PrivateSpace(c)
 	c.Space("msg", "messages with all four sections populated (C01 pool + OPT + SVCB + APL + NSEC): Copy and CopyTo vs original, Unpack vs its buffer (every octet overwritten), Pack/PackBuffer/Len/String/Copy read-only; 24 rotations; non-trivial: all", true,
 		func(emit func(func(*fw.R))) {
 			pool := append(c01Pool(),
@@ -463,4 +465,110 @@ func minInt(a, b int) int {
 		return a
 	}
 	return b
+}
+
+// c16PrivateSpace: a type registered through PrivateHandle. The library copies such a record by asking the
+// user's PrivateRdata to copy itself into a fresh value from the generator; the record, a message that holds it
+// and their copies must be as independent as for a built-in type.
+func c16PrivateSpace(c *fw.Ctx) {
+	pls := [][]byte{{}, {'a'}, {0}, {0xff, '"'}, bytes.Repeat([]byte{'z'}, 255), []byte("hello world")}
+	c.Space("private", "a private type registered through PrivateHandle (rdata = one character-string), 6 payloads × origin {made by the registry's constructor and filled in, unpacked from reference octets, parsed from text}: Copy and Msg.Copy give an equal record that shares no payload memory with the original (a write through either is invisible through the other), and Len / String / PackRR / Copy leave the record unchanged; non-trivial: all", true,
+		func(emit func(func(*fw.R))) {
+			for _, pl := range pls {
+				for origin := 0; origin < 3; origin++ {
+					pl, origin := pl, origin
+					emit(func(r *fw.R) {
+						r.Nontrivial()
+						dns.PrivateHandle("VPRIV", c01PrivType, func() dns.PrivateRdata { return new(c01PrivRdata) })
+						defer dns.PrivateHandleRemove(c01PrivType)
+						// built the way the API allows: the registry's constructor (it carries the generator that copy() needs)
+						built := dns.TypeToRR[c01PrivType]().(*dns.PrivateRR)
+						built.Hdr = dns.RR_Header{Name: "p.example.", Rrtype: c01PrivType, Class: 1, Ttl: 60}
+						built.Data = &c01PrivRdata{append([]byte(nil), pl...)}
+						var rr dns.RR = built
+						want := pl
+						switch origin {
+						case 1:
+							b := make([]byte, 600)
+							n, err := dns.PackRR(rr, b, 0, nil, false)
+							if err != nil {
+								r.Fail("private/pack", "%v", err)
+								return
+							}
+							u, _, err := dns.UnpackRR(b[:n], 0)
+							if err != nil {
+								r.Fail("private/unpack", "%v", err)
+								return
+							}
+							rr = u
+						case 2:
+							p, err := dns.NewRR("p.example. 60 IN VPRIV text")
+							if err != nil {
+								r.Fail("private/parse", "%v", err)
+								return
+							}
+							rr, want = p, []byte("text")
+						}
+						pr, ok := rr.(*dns.PrivateRR)
+						if !ok {
+							r.Fail("private/type", "got %T", rr)
+							return
+						}
+						data := func(x dns.RR) []byte { return x.(*dns.PrivateRR).Data.(*c01PrivRdata).s }
+						var cp dns.RR
+						func() {
+							defer func() {
+								if p := recover(); p != nil {
+									r.Fail("private/copy-panics", "Copy of a private record panicked: %v", p)
+								}
+							}()
+							cp = dns.Copy(rr)
+							_ = dns.Len(rr)
+							_ = rr.String()
+							dns.PackRR(rr, make([]byte, 600), 0, nil, false)
+						}()
+						if cp == nil {
+							return
+						}
+						if !bytes.Equal(data(rr), want) {
+							r.Fail("private/mutated-by-readonly-op", "payload %q after Copy/Len/String/PackRR, was %q", data(rr), want)
+						}
+						if cp == rr || cp.(*dns.PrivateRR).Data == pr.Data {
+							r.Fail("private/copy-shares", "Copy returned the same record / the same PrivateRdata value")
+							return
+						}
+						hc, ho := *cp.Header(), *rr.Header()
+						hc.Rdlength, ho.Rdlength = 0, 0 // documented bookkeeping of PackRR
+						if !bytes.Equal(data(cp), want) || hc != ho {
+							r.Fail("private/copy-differs", "Copy = %v, original %v", cp, rr)
+						}
+						if len(want) > 0 {
+							data(cp)[0] ^= 0xff
+							if !bytes.Equal(data(rr), want) {
+								r.Fail("private/copy-shares", "a write to the copy's payload is visible in the original")
+							}
+							data(cp)[0] ^= 0xff
+							data(rr)[0] ^= 0xff
+							if !bytes.Equal(data(cp), want) {
+								r.Fail("private/copy-shares", "a write to the original's payload is visible in the copy")
+							}
+							data(rr)[0] ^= 0xff
+						}
+						m := &dns.Msg{Answer: []dns.RR{rr}}
+						var mc *dns.Msg
+						func() {
+							defer func() {
+								if p := recover(); p != nil {
+									r.Fail("private/copy-panics", "Msg.Copy of a message with a private record panicked: %v", p)
+								}
+							}()
+							mc = m.Copy()
+						}()
+						if mc != nil && (len(mc.Answer) != 1 || mc.Answer[0] == rr || !bytes.Equal(data(mc.Answer[0]), want)) {
+							r.Fail("private/msg-copy", "Msg.Copy: %v", mc.Answer)
+						}
+					})
+				}
+			}
+		})
 }
